@@ -515,6 +515,50 @@ def tighten(draw, case, ops=None):
 
 
 @st.composite
+def int_labelled(draw, case):
+    """The same pair with integer column labels 0, 1, 2, ... (a frame built from a numpy array): labels that are falsy
+    (0) or not strings.  In the JSON case (and for the reference model) the labels stay digit strings; the builders turn
+    them into integers (spec/table flag int_labels).  A regex column becomes a pattern over the digits."""
+    import copy
+
+    case = copy.deepcopy(case)
+    spec, table = case["spec"], case["table"]
+    if spec.get("kind", "dataframe") != "dataframe":
+        return case
+    names = []
+    for t in table["columns"]:
+        if t["name"] not in names:
+            names.append(t["name"])
+    for c in spec["columns"]:
+        if not c.get("regex") and c["name"] not in names:
+            names.append(c["name"])
+    if not names:
+        return case
+    start = draw(st.sampled_from([0, 0, 0, 1]))
+    m = {n: str(start + i) for i, n in enumerate(names)}
+    for t in table["columns"]:
+        t["name"] = m[t["name"]]
+    tn = [t["name"] for t in table["columns"]]
+    for c in spec["columns"]:
+        if c.get("regex"):
+            c["name"] = draw(st.sampled_from(["\\d+", "^[0-1]$", "^" + (tn[0] if tn else "0") + "$"]))
+        else:
+            c["name"] = m[c["name"]]
+    seen, cols = set(), []
+    for c in spec["columns"]:  # two regex columns may have been given the same pattern
+        if c["name"] not in seen:
+            seen.add(c["name"])
+            cols.append(c)
+    spec["columns"] = cols
+    if spec.get("unique"):
+        uq = spec["unique"]
+        spec["unique"] = [m.get(x, x) for x in uq] if all(isinstance(x, str) for x in uq) else [[m.get(x, x) for x in g] for g in uq]
+    spec["checks"] = [c for c in spec.get("checks", []) if c["kind"] != "col_ge"]
+    spec["int_labels"] = table["int_labels"] = True
+    return case
+
+
+@st.composite
 def repaired_case(draw, **kw):
     base = draw(case_strategy(**kw))
     r = draw(st.integers(0, 9))
